@@ -1091,8 +1091,15 @@ class Grammar(PGFile):
             if isinstance(term.recognizer, StringRecognizer):
                 match = keyword_rec(term.recognizer.value, 0)
                 if match == term.recognizer.value:
+                    # Match the literal text of the keyword but only if it
+                    # is not preceded or followed by a word character. `\b`
+                    # means exactly that next to a word character.
+                    before = r"\b" if re.match(r"\w", match[0]) else r"(?<!\w)"
+                    after = r"\b" if re.match(r"\w", match[-1]) else r"(?!\w)"
                     term.recognizer = RegExRecognizer(
-                        rf"\b{match}\b", ignore_case=term.recognizer.ignore_case
+                        f"{before}{re.escape(match)}{after}",
+                        name=match,
+                        ignore_case=term.recognizer.ignore_case,
                     )
                     term.keyword = True
 
